@@ -21,6 +21,10 @@ def families(quick):
     fam.append([[A], [B], [b"x"], [C], [b"y"], [b"z"], [b"d"]])
     # the same with sources that continue with large keys, so that heap_replace (not heap_pop) follows the push phase
     fam.append([[A, b"za"], [B, b"zb"], [b"x"], [C, b"zc"], [b"y"], [b"z"], [b"d"]])
+    # heap_replace with an ODD number of live sources where the RIGHT child (the last heap slot) is the smaller one
+    fam.append([[A, b"d"], [C], [B]])
+    fam.append([[A, b"d"], [C, b"e"], [B, b"f"]])
+    fam.append([[A, b"z"], [b"e"], [b"d"], [C], [B]])
     if not quick:
         fam.append([[b"g"], [b"f"], [b"e"], [b"d"], [C], [B], [A]])
         fam.append([[A, b"x"], [B], [b"x"], [C], [b"y"], [b"z"], [b"d"], [A]])
@@ -49,10 +53,17 @@ def build(tier, seed):
     for failat in (1, 2):
         qs.append(mc.mq("mergefail_%d" % failat, [[b"a"], [b"a"], [b"a", b"b"]], mode=3, failat=failat, ops="nn"))
     qs.append(mc.mq("mergefail_later", [[b"a", b"c"], [b"b", b"c"]], mode=3, failat=1, ops="nnnn"))
+    # libmy/heap.c alone, every content: fill (push / add+heapify), replace the minimum NR times, drain
+    from vdriver import Query
+    for nh, nr in ([(3, 2), (4, 1)] if quick else [(1, 1), (2, 2), (3, 2), (3, 3), (4, 1), (4, 3)]):      # 5 items and more: no verdict in 15 min
+        for mode in (0, 1):
+            qs.append(Query("heap_n%d_r%d_m%d" % (nh, nr, mode), harness="c04_heap.c", entry="h_heap", defines={"NH": nh, "NR": nr, "MODE": mode},
+                            units=[], unwind=nh + 3, object_bits=10, timeout=900, mem_gb=8, witness=(nh == 3 and mode == 0), leak_check=True,
+                            sample={"items": nh, "replacements": nr, "fill": ["heap_push", "heap_add + heap_heapify"][mode], "symbolic": "every key (8 bit), i.e. every order and every pattern of ties"}))
     meta = {
-        "functions": mc.FUNCS, "units": ["mtbl/merger.c", "libmy/heap.c", "mtbl/iter.c", "mtbl/source.c"],
-        "bounds": "0..3 sources x 0..4 entries (<= 6 entries in total), concrete keys of 0..2 bytes chosen to cover interleaved / overlapping / disjoint / empty sources, the empty key, prefixes and 0xff; one symbolic value byte per entry (so the fold is decided for all values); merge = byte sum, none, none+dupsort, failing on its k-th call; full drain plus two further calls",
-        "outside": "more than 3 sources / 6 entries; keys decided by symbolic bytes (heap order would become symbolic); the mtbl_merge tool (dlopen/argv/file I/O) and mtbl_source_write over a merger",
+        "functions": mc.FUNCS + ["heap_init", "heap_push", "heap_add", "heap_heapify", "heap_replace", "heap_pop", "heap_peek", "siftup", "siftdown"], "units": ["mtbl/merger.c", "libmy/heap.c", "mtbl/iter.c", "mtbl/source.c"],
+        "bounds": "0..3 sources x 0..4 entries (<= 6 entries in total; plus 5- and 7-source families of one or two entries each for the heap's sift paths), concrete keys of 0..2 bytes chosen to cover interleaved / overlapping / disjoint / empty sources, the empty key, prefixes and 0xff; one symbolic value byte per entry (so the fold is decided for all values); merge = byte sum, none, none+dupsort, failing on its k-th call; full drain plus two further calls",
+        "outside": "more than 3 sources / 6 entries in the merger queries (heap.c alone: every content of <= 4 items, <= 3 replacements; larger heaps only through the enumerated 5- and 7-source families); keys decided by symbolic bytes (heap order would become symbolic); the mtbl_merge tool (dlopen/argv/file I/O) and mtbl_source_write over a merger",
         "stubs": mc.STUBS,
         "assumptions": ["input sources meet the reader contract of C02/C03 (assume/guarantee: the real reader is checked against that contract there)"],
         "exhaustive": False,
